@@ -58,12 +58,16 @@ def generate_yaml(seed, tier, st):
             t["reforms"] = ir.sample(REFORMS, ir.randint(1, 2))
         elif r < 0.4:
             t["extensions"] = ir.sample(EXTENSIONS, ir.randint(1, 2))
+        elif r < 0.55:
+            # both keys: reforms are applied first, extensions loaded on the result
+            t["reforms"] = ir.sample(REFORMS, ir.randint(1, 2))
+            t["extensions"] = ir.sample(EXTENSIONS, ir.randint(1, 2))
         for _ in range(ir.randint(1, 3)):
             v = pick(ir, world["variables"])
             t["outputs"].append({
                 "var": v["name"],
                 "layout": pick(ir, ["variable", "entity", "instance"]),
-                "place": weighted(ir, [("at", 4), ("inside", 2), ("on", 1.5), ("beyond", 3)]),
+                "place": weighted(ir, [("at", 4), ("inside", 2), ("on", 1.5), ("beyond", 3), ("just_beyond", 1.5)]),
                 "with_period": chance(ir, 0.3),
                 "sign": pick(ir, [1, -1]),
             })
@@ -138,6 +142,8 @@ def place_value(spec, actual, place, margin, sign, default_margin=None):
                 return a * (1 + default_margin / 8), False
         margin = None
     t = spec["type"]
+    if place == "just_beyond" and not (t in ("float", "int") and margin is not None and margin[0] == "abs" and margin[1] != 0):
+        place = "beyond"
     if t == "bool":
         # booleans are compared as the numbers 0 / 1: a flipped value differs by 1
         if place in ("at", "inside", "on"):
@@ -171,6 +177,12 @@ def place_value(spec, actual, place, margin, sign, default_margin=None):
         if place == "inside":
             e = a + sign * m / 4 if exact or abs(a) < 1e5 else a
             return e, True
+        if place == "just_beyond":
+            # a few millionths of the value past the margin: far more than float32
+            # rounding, far less than any slack proportional to the value would excuse
+            excess = abs(a) * 5e-6
+            if excess >= 32 * float(numpy.spacing(numpy.float32(abs(a) + m + excess))):
+                return a + sign * (m + excess), False
         e = a + sign * m * 3 + sign * abs(a) * 1e-3
         return e, False
     # relative to the expected value
@@ -285,7 +297,7 @@ def build_test(world: World, tbs, t):
         bad_index = (len(details) + len(var)) % n
         for i in range(n):
             place = o["place"]
-            if place == "beyond" and i != bad_index:
+            if place in ("beyond", "just_beyond") and i != bad_index:
                 place = "at"  # one entity off is enough to fail
             e, ok = place_value(spec, actual[i], place, margin, target, default_margin)
             if ok is None:
@@ -307,7 +319,7 @@ def build_test(world: World, tbs, t):
             else:
                 # only declared instances can be named; verdict follows the named ones
                 idx = [ids.index(i) for i in declared]
-                if o["place"] == "beyond" and bad_index not in idx:
+                if o["place"] in ("beyond", "just_beyond") and bad_index not in idx:
                     ok_all = True
                 for i in idx:
                     val = {per: exp[i]} if explicit else exp[i]
